@@ -91,6 +91,9 @@ class Check(HCheck):
                 ctx.fail("network-transpose", "inbound network (include_auto=%s) %r is not the transpose of the outbound one %r" % (auto, i, o))
             if strip(t.get_webentities_inlinks(include_auto=auto)) != i or strip(t.get_webentities_outlinks(include_auto=auto)) != o:
                 ctx.fail("network-alias", "get_webentities_inlinks/outlinks disagree with get_webentities_links (include_auto=%s)" % auto)
+            from traph.traph_iterator_state import run_iterator
+            if strip(run_iterator(t.get_webentities_inlinks_iter(include_auto=auto))) != i or strip(run_iterator(t.get_webentities_outlinks_iter(include_auto=auto))) != o:
+                ctx.fail("network-alias-iter", "get_webentities_inlinks_iter/outlinks_iter disagree with get_webentities_links (include_auto=%s)" % auto)
         # tallies (fast variant only)
         exp_t = collections.defaultdict(lambda: [0, 0])
         for p, c in g.pages:
